@@ -14,7 +14,6 @@ Uniq(s)   == NoDup([i \in DOMAIN s |-> s[i].c])          \* a listing names ever
 NoErr(r)  == r.err = ""
 BookOf(s) == [p \in {s[i].p : i \in DOMAIN s} |->
                 LET e == CHOOSE i \in DOMAIN s : s[i].p = p IN [addrs |-> SetOf(s[e].addrs), prio |-> s[e].prio]]
-AnySeq(S) == CHOOSE s \in [1..Cardinality(S) -> S] : Range(s) = S
 
 Good(r) ==
     CASE r.act = "Export"      -> NoErr(r) /\ ExportGood(SetOf(r.src), r.stream)
